@@ -426,7 +426,7 @@ impl Check for C10 {
         "C10"
     }
     fn plan(&self, tier: Tier) -> Plan {
-        Plan { cases: if tier == Tier::Quick { 40_000 } else { 1_500_000 }, max_len: 2048 }
+        Plan { cases: if tier == Tier::Quick { 1_000_000 } else { 15_000_000 }, max_len: 2048 }
     }
     fn rule(&self) -> String {
         "choice sequence -> box layout (signature, ftyp, optional jxll, jxlc | jxlp*n at generated positions, raw and brob aux boxes, 32/64-bit/to-EOF sizes, generated payloads incl. header look-alikes; 25% ill-formed by one of 10 constructions) x generated chunking (whole, 1-byte, fixed-n, random cuts, cuts at box-header boundaries -3..+17). Oracle: model event list vs ContainerParser events under the documented re-offer contract; ill-formed => Err for whole-buffer and chunked feeds. Non-trivial: >=2 boxes after the signature and >=2 chunks; distinct by FNV of (file bytes, cuts).".into()
